@@ -376,6 +376,52 @@ def restore(out, i, src_live, op, recipe, tol, phase):
     return restored
 
 
+def shared_objects(a, b, limit=20000):
+    """Mutable objects (modules, parameters, dicts, lists, sets, gpytorch helper objects such as prediction strategies or
+    added loss terms) reachable from model `b` that are the very objects reachable from model `a`.  Tensors that are not
+    parameters are not followed (cached tensors are never written in place; parameters / buffers are covered by the
+    storage check)."""
+    import collections
+
+    def walk(root):
+        seen = {}
+        stack = [("model", root)]
+        n = 0
+        while stack and n < limit:
+            path, obj = stack.pop()
+            n += 1
+            oid = id(obj)
+            if oid in seen or obj is None or isinstance(obj, (str, bytes, int, float, bool, complex, type, torch.dtype, torch.device, torch.Size)):
+                continue
+            if isinstance(obj, torch.nn.Parameter):
+                seen[oid] = path
+            elif isinstance(obj, torch.Tensor) or callable(obj) and not isinstance(obj, torch.nn.Module):
+                continue
+            elif isinstance(obj, torch.nn.Module):
+                seen[oid] = path
+                for kk, v in vars(obj).items():
+                    stack.append((path + "." + kk, v))
+            elif isinstance(obj, (dict, collections.OrderedDict)):
+                seen[oid] = path
+                for kk, v in obj.items():
+                    stack.append((path + "[%r]" % (kk,), v))
+            elif isinstance(obj, (list, set)):
+                seen[oid] = path
+                for j, v in enumerate(obj):
+                    stack.append((path + "[%d]" % j, v))
+            elif isinstance(obj, tuple):
+                for j, v in enumerate(obj):
+                    stack.append((path + "[%d]" % j, v))
+            elif type(obj).__module__.startswith("gpytorch") and hasattr(obj, "__dict__"):
+                seen[oid] = path
+                for kk, v in vars(obj).items():
+                    stack.append((path + "." + kk, v))
+        return seen
+
+    sa, sb = walk(a), walk(b)
+    return sorted((sb[o], sa[o]) for o in sb if o in sa)
+
+
 def independence_check(out, i, src_live, how, op, recipe, tol, cls):
     """A copy is self-contained: O = copy(src), C = copy(O); C's eval-mode prediction must not change when O is modified
     afterwards (parameters moved in training mode).  Uses throw-away objects, so A and B are not disturbed."""
@@ -427,6 +473,15 @@ def independence_check(out, i, src_live, how, op, recipe, tol, cls):
     shared = [n for (n, p), (_, q) in zip(sorted(O.state_dict(keep_vars=True).items()), sorted(Cm2.state_dict(keep_vars=True).items())) if p is q or (p.numel() > 0 and p.data_ptr() == q.data_ptr())]
     if shared:
         out.violate("copy_not_independent", i, "%s copy shares storage with its original: %s" % (how, shared[:3]), quantity="storage", **cls)
+    # ... and no mutable object of the object graph (a dict of added loss terms, a sub-module, a strategy) is shared
+    try:
+        so = shared_objects(O, Cm2)
+    except Exception as e:  # noqa
+        out.stats["probe:object_graph_walk_unavailable_" + type(e).__name__] += 1
+        so = []
+    out.stats["probe:object_graph_compared"] += 1
+    if so:
+        out.violate("copy_not_independent", i, "%s copy shares mutable objects with its original: %s" % (how, ["%s is %s" % pq for pq in so[:3]]), quantity="object", what=so[0][0].rsplit(".", 1)[-1].split("[")[0], **cls)
 
 
 def family_label(recipe):
